@@ -223,6 +223,8 @@ def hyp_search(ctx, col, strategy, execute, seed, max_examples, shrink=True):
     search goes on behind them. A harness exception propagates (exit 2)."""
     from hypothesis import given, settings, seed as hseed, HealthCheck, Phase
     last = {}
+    state = {'after': 0, 'over': False, 'harness': False}
+    budget = 150 if ctx.tier == 'quick' else 1000     # evaluations spent on shrinking one failure
     phases = [Phase.generate] + ([Phase.shrink] if shrink else [])
 
     @hseed(seed)
@@ -231,7 +233,18 @@ def hyp_search(ctx, col, strategy, execute, seed, max_examples, shrink=True):
               phases=phases, print_blob=False)
     @given(strategy)
     def t(spec):
-        out = execute(spec)
+        if state['over']:
+            return
+        if last:
+            state['after'] += 1
+            if state['after'] > budget:
+                state['over'] = True      # stop shrinking: every further candidate "passes"
+                return
+        try:
+            out = execute(spec)
+        except BaseException:
+            state['harness'] = True
+            raise
         unknown = judge(ctx, col, spec, out)
         if unknown:
             last['spec'] = spec
@@ -240,13 +253,10 @@ def hyp_search(ctx, col, strategy, execute, seed, max_examples, shrink=True):
 
     try:
         t()
-    except _Found:
-        col.violation(last['spec'], last['v'])
-    except BaseException as e:  # hypothesis may wrap
-        if last and _is_found(e):
-            col.violation(last['spec'], last['v'])
-        else:
+    except BaseException:
+        if state['harness'] or not last:
             raise
+        col.violation(last['spec'], last['v'])
 
 
 def _is_found(e):
